@@ -3,7 +3,7 @@
     [Print Assumptions]. *)
 From Coq Require Import List ZArith.
 From Webp Require Import Base.Res Vp8l.Vp8lPixel Vp8l.Vp8lArr Vp8l.Vp8lPrefix Vp8l.Vp8lTransforms Vp8l.Vp8lSpec
-  Vp8l.Vp8lCanon Vp8l.Vp8lEmit Vp8l.Vp8lEntropy Vp8l.Vp8lCodeLens Vp8l.Vp8lEmitDecode Vp8l.Vp8lWf Vp8l.Vp8lInPlace Vp8l.Vp8lKernels Vp8l.Vp8lTables Vp8l.Vp8lCacheDefer.
+  Vp8l.Vp8lCanon Vp8l.Vp8lLut Vp8l.Vp8lEmit Vp8l.Vp8lEntropy Vp8l.Vp8lCodeLens Vp8l.Vp8lEmitDecode Vp8l.Vp8lWf Vp8l.Vp8lInPlace Vp8l.Vp8lKernels Vp8l.Vp8lTables Vp8l.Vp8lCacheDefer.
 From WebpGen Require Consts Tables.
 Import ListNotations.
 Open Scope Z_scope.
@@ -111,6 +111,27 @@ Theorem C03_complete_code_accepted : forall lens,
   lens_in_range lens = true -> kraft_sum lens = 32768 -> exists t, tree_of_lens lens = Ok t.
 Proof. exact tree_of_lens_complete. Qed.
 Print Assumptions C03_complete_code_accepted.
+
+(** Implementation model of the decoder's Huffman lookup tables (BuildHuffmanTable:
+    bit-reversed running key, replicate step, second-level tables; ReadSymbol) vs
+    the canonical code: for every length vector the decoder accepts whose lengths
+    do not exceed the root size (the 7-bit code-length table always; the 8-bit
+    tables whenever no code is longer than 8), the table lookup on any bit window
+    returns the symbol and length that walking the canonical code tree gives ...
+    Partial: the two-level case is [lut_decode_eq_canonical_statement]. *)
+Theorem C03_lut_decode_eq_canonical_partial : forall root lens t tab w,
+  0 <= root -> Forall (fun l => l <= root) lens ->
+  tree_of_lens lens = Ok t -> lut_build root lens = Ok tab -> 0 <= w ->
+  exists v n, walk t w = Some (v, n) /\ lut_read root tab w = (v, n).
+Proof. exact lut_decode_eq_canonical_root. Qed.
+Print Assumptions C03_lut_decode_eq_canonical_partial.
+
+(** ... where walking the tree along a window is reading the symbol from the
+    window's bit list (so [C03_prefix_roundtrip] applies to it). *)
+Theorem C03_walk_read_symbol : forall t w v n k rest, walk t w = Some (v, n) -> (Z.to_nat n <= k)%nat ->
+  read_symbol t (put_bits k w ++ rest) = Ok (v, put_bits (k - Z.to_nat n) (w / 2 ^ n) ++ rest).
+Proof. exact walk_read_symbol. Qed.
+Print Assumptions C03_walk_read_symbol.
 
 (** Basis of the decoder's trivial-literal shortcut: one-symbol red/blue/alpha codes
     are read without consuming bits and yield the group's constants. *)
